@@ -1,4 +1,5 @@
 """C17 - contains_point agrees with the fill rule."""
+import math
 from .. import core, pathcheck as pc, scene, scenecheck as sc, build, gen, geom
 from ..gen import f32bits as FB, bits_f32
 from . import _path
@@ -224,10 +225,42 @@ def exact_statement(aug):
     return "true" if (ins or on) else "false"
 
 
+def independent(aug_or_query):
+    """The point against the path's exact shape, computed here (f64; curves sampled 128 times, the cursor kept as filling
+    keeps it: Close returns to the subpath's start, a curve with no current point starts at its first control point) and
+    NOT through Path::flatten -> (inside?, distance to the outline) or None"""
+    from . import C08
+    t = aug_or_query.split()
+    x, y = bits_f32(int(t[3])), bits_f32(int(t[4]))
+    try:
+        w, ops, _ = _path.parse_path(t, 5)
+    except Exception:
+        return None
+    if not geom.finite(x, y) or any(not geom.finite(*o[1:]) for o in ops if len(o) > 1):
+        return None
+    subs = C08.fine_polygons(ops, scene.IDENT)
+    # a subpath consisting of a single point is a (degenerate) segment of the path too
+    dpt = min([math.hypot(o[k] - x, o[k + 1] - y) for o in ops for k in range(1, len(o) - 1, 2) if o[0] in "ML"] or [1e30])
+    if not subs:
+        return (False, dpt)
+    wn = C08.winding(subs, (x, y))
+    return ((wn != 0) if w == 0 else (wn % 2 != 0), min(dpt, C08.outline_dist(subs, (x, y))))
+
+
 def oracle(aug, impl):
     sp = SPEC.get(aug.split()[1])
     if sp is None:
         sp = exact_statement(aug)
+    t = aug.split()
+    if " Q " in aug.split(" FLAT ")[0] or " C " in aug.split(" FLAT ")[0]:
+        # curved path: the answer must also agree with the exact curved shape wherever the point is farther from the
+        # outline than the flattening tolerance (the statement speaks about the path, whatever flatten() returns)
+        ind = independent(aug)
+        tol = bits_f32(int(t[2]))
+        if ind is not None and geom.finite(tol) and ind[1] > abs(tol) + 0.05 and impl.split()[1] == "ok":
+            if impl.split()[2] != ("true" if ind[0] else "false"):
+                return "contains_point returned %s for a point %.3f from the outline (tolerance %g) that is %s the exact curved shape" % (
+                    impl.split()[2], ind[1], tol, "inside" if ind[0] else "outside")
     if sp is None:
         return "skip"
     got = impl.split()[2]
@@ -294,6 +327,18 @@ def fill_agreement(ctx):
         else:   # every op order: a curve as the first op, directly after Close, after a second Close, repeated MoveTo
             P = lambda r: (r.randrange(-8, 4 * W + 8) / 4.0, r.randrange(-8, 4 * H + 8) / 4.0)
             ops = pc.mixed_ops(rng, pt=P)
+            if 0.80 < c <= 0.88:   # a closed blob drawn with one curve that returns to its start, alone or as a hole in a rectangle
+                # a fat drop: the two control points far apart beyond the opposite side of the surface
+                u = rng.randrange(4, 4 * W - 4) / 4.0
+                spread, reach = rng.randrange(32, 60) / 4.0, rng.randrange(56, 80) / 4.0
+                pts3 = [(u, 1.0), (u - spread, 1.0 + reach), (u + spread, 1.0 + reach)]
+                if rng.random() < 0.5:
+                    pts3 = [(x_, H - y_) for x_, y_ in pts3]
+                if rng.random() < 0.5:
+                    pts3 = [(y_, x_) for x_, y_ in pts3]
+                p0 = pts3[0]
+                loop = ["M " + scene.fpt(*p0), "C %s %s %s K 0" % (scene.fpt(*pts3[1]), scene.fpt(*pts3[2]), scene.fpt(*p0))] + (["Z"] if rng.random() < 0.5 else [])
+                ops = (["M " + scene.fpt(0.5, 0.5), "L " + scene.fpt(W - 0.5, 0.5), "L " + scene.fpt(W - 0.5, H - 0.5), "L " + scene.fpt(0.5, H - 0.5), "Z"] if rng.random() < 0.3 else []) + loop
             if c > 0.88:    # a path that begins with a curve (no MoveTo: the curve starts at its first control point), then lines
                 first = ("Q %s %s" % (scene.fpt(*P(rng)), scene.fpt(*P(rng)))) if rng.random() < 0.5 else \
                         ("C %s %s %s K 0" % (scene.fpt(*P(rng)), scene.fpt(*P(rng)), scene.fpt(*P(rng))))
@@ -327,11 +372,10 @@ def fill_agreement(ctx):
                 continue      # a zero-area part of the path passes exactly through the pixel centre: 'on a segment' wins
             # a sliver of the shape thinner than the sampling grid can pass through the centre of a pixel that fill leaves
             # untouched (or a gap through a painted one): the winding-number statement itself decides such a point, and
-            # when it agrees with contains_point there is nothing to report
-            import subprocess
-            p_ = subprocess.run([build.RQV, "aug"], input=q + "\n", stdout=subprocess.PIPE, stderr=subprocess.PIPE, text=True, timeout=600)
-            ex = exact_statement(p_.stdout.strip()) if p_.returncode == 0 else None
-            if ex is not None and ex == o.split()[2]:
+            # when it agrees with contains_point there is nothing to report (evaluated here on the exact shape, f64, not
+            # through Path::flatten)
+            ind = independent(q)
+            if ind is not None and (ind[1] < 0.02 or ("true" if ind[0] else "false") == o.split()[2]):
                 continue
             ctx.violation("fill-%s" % q.split()[1], q, "contains_point says %s for the centre of a pixel whose whole 3x3 neighbourhood fill %s"
                           % (o.split()[2], "painted fully" if e == "true" else "left untouched"))
